@@ -72,6 +72,10 @@ pub struct Proc {
 }
 
 impl Proc {
+    /// has the process not exited?
+    pub fn alive(&mut self) -> bool {
+        matches!(self.child.try_wait(), Ok(None))
+    }
     /// SIGKILL, then reap
     pub fn kill9(&mut self) {
         let _ = self.child.kill();
@@ -493,7 +497,7 @@ pub fn run(tier: Tier, seed: u64) -> Report {
         tier,
         seed,
         "exploration",
-        "generated configurations: 1-3 listen addresses from {127.0.0.1, 127.0.0.2, [::1], localhost} (repeated flags, comma-joined, or LISTEN), data directory (flag or DATA_DIR), allow-list (none / first k clients plus unrelated ids; repeated, comma-joined or CLIENT_ID), snapshot-versions (default, 0..6, large) and snapshot-days (default, 0..3, large) each by flag or environment. The real executable built from /repo is spawned; a generated history over 4 clients is spoken over TCP to the listen addresses in turn (Content-Length and chunked). Oracle: every address answers; listed clients' requests behave per the reference model configured with the generated targets (urgency bands reveal both targets; snapshot age installed by rewriting the stored time through a second SQLite connection); unlisted ids get exactly 403; the database file is in the given directory; after SIGKILL and restart on the same directory the chains and snapshots are served unchanged, and a start on another directory serves nothing. Non-trivial: differs from the defaults in >=2 dimensions and mixes flag and environment sources; distinct by configuration tuple.",
+        "generated configurations: 1-3 listen addresses from {127.0.0.1, 127.0.0.2, [::1], localhost} (repeated flags, comma-joined, or LISTEN), data directory (flag or DATA_DIR), allow-list (none / first k clients plus unrelated ids; repeated, comma-joined or CLIENT_ID), snapshot-versions (default, 0..6, large) and snapshot-days (default, 0..3, large) each by flag or environment. The real executable built from /repo is spawned; a generated history over 4 clients is spoken over TCP to the listen addresses in turn (Content-Length and chunked). Oracle: every address answers; listed clients' requests behave per the reference model configured with the generated targets (urgency bands reveal both targets; snapshot age installed by rewriting the stored time through a second SQLite connection); a constructed grid crosses every band of both targets at once; unlisted ids get exactly 403; the database file is in the given directory; after SIGKILL and restart on the same directory the chains and snapshots are served unchanged, and a start on another directory serves nothing. Non-trivial: differs from the defaults in >=2 dimensions and mixes flag and environment sources; distinct by configuration tuple.",
     );
     rep.assume("listen addresses are loopback only; a spawn that fails is retried on other ports, and counts as inconclusive (not a violation) unless a plain 127.0.0.1 launch of the same configuration works");
     if server_bin().is_none() {
@@ -502,6 +506,31 @@ pub fn run(tier: Tier, seed: u64) -> Report {
     }
     let r = engine::replay_dir::<BCase, _>("C17", "binary", check);
     rep.absorb("replay-tier", r);
+    if rep.failed() {
+        return rep;
+    }
+    // both snapshot targets at once: for each configured (versions, days) pair, a snapshot of each
+    // age class (below the target, at it, at one and a half times it, far beyond) followed by a
+    // run of versions that crosses every band of the versions target
+    let mut grid = vec![];
+    for (k, (vs, ds)) in [(4u32, 4i64), (3, 5), (6, 2), (2, 7)].into_iter().enumerate() {
+        for (j, days) in [0, ds - 1, ds, ds + ds / 2 - 1, ds + ds / 2, ds + (ds + 1) / 2, 3 * ds].into_iter().enumerate() {
+            for (sv, sd) in [(Src::Flag, Src::Env), (Src::Env, Src::Flag)] {
+                if tier == Tier::Quick && (k + j) % 2 == 1 && sv == Src::Env {
+                    continue;
+                }
+                let d = |seed: u32| BytesSpec { len: 4 + seed % 3, class: 2, seed };
+                let mut ops = vec![Op::AddVersion { c: 0, parent: IdRef::Nil, data: d(1) }, Op::AddSnapshot { c: 0, version: IdRef::Latest(0), data: d(2) }, Op::AgeSnapshot { c: 0, days: days.max(0) as u16 }];
+                for i in 0..(2 * vs + 2) {
+                    ops.push(Op::AddVersion { c: 0, parent: IdRef::Latest(0), data: d(10 + i) });
+                }
+                grid.push(BCase { hosts: vec![0], listen_style: ListStyle::Repeated, data_dir_src: Src::Flag, allow: None, allow_style: ListStyle::Repeated, snapshot_versions: (sv, vs), snapshot_days: (sd, ds), ops, salt: 2 * (k as u32 * 16 + j as u32) + 1, kill_restart: false, dir_form: 0 });
+            }
+        }
+    }
+    let mut r = engine::enumerate_n("C17", "binary", 8, grid, check);
+    r.exhaustive = false;
+    rep.absorb("both-targets-grid", r);
     if rep.failed() {
         return rep;
     }
